@@ -14,7 +14,8 @@ Sweeps (all complete for their stated bound, nothing sampled):
   R  comparison sweep: every structure of S with k <= KR that contains a comparison, every single comparison
      position x all 12 spellings;
   E  .eqv./.neqv. sweep: S extended with the two equivalence operators for k <= KE;
-  O  operand sweep: every structure with k <= KO, every single position x every operand alternative of the right
+  O  operand sweep: every structure with k <= KO (with a group only for k <= KOG), every single position x every
+     operand alternative of the right
      type (int/real/logical literals with and without kinds, real variables, a(i), b(i,2), t%x, t%y, t%p, lg(i),
      max(i,w), upper-case names), plus the uniform themes (all numeric positions real variables / int literals);
   L  layout sweep: every structure with k <= KL in the compact (no blanks) and the upper-case style.
@@ -339,8 +340,8 @@ def typed_ok(s, vars_):
 def bounds(ctx_or_tier):
     quick = ctx_or_tier == 'quick' if isinstance(ctx_or_tier, str) else ctx_or_tier.quick
     if quick:
-        return dict(K=3, KR=2, KE=2, KO=1, KL=2, KT=2, KG=1, KGS=2)
-    return dict(K=4, KR=2, KE=3, KO=2, KL=3, KT=2, KG=4, KGS=4)
+        return dict(K=3, KR=1, KE=2, KO=1, KOG=1, KL=1, KT=1, KG=1, KGS=2)
+    return dict(K=4, KR=2, KE=3, KO=2, KOG=1, KL=2, KT=2, KG=4, KGS=4)
 
 
 def make_case(ops, group, lead, glead, operands, style='spaced', sweep='S'):
@@ -439,7 +440,7 @@ def enumerate_shard(arg):
                                 sp = canon_ops(ops)
                                 sp[rp] = r
                                 add(make_case(sp, g, lead, glead, default_operands(ty), sweep='R'))
-                    if k <= B['KO']:
+                    if k <= B['KO'] and (g is None or k <= B['KOG']):
                         for pos in range(k + 1):
                             alts = num_alternatives(pos) if ty[pos] == 'n' else log_alternatives(pos)
                             for n, (text, _) in enumerate(alts):
@@ -579,10 +580,9 @@ def judge(s, vars_, ptree, perr, ftree):
         res['ndef'] += 1
         seen_vals.add(g)
         h = (h * HASH_P + _code(g)) % HASH_M
-        sig = dict(zip(names, [vshow(vkey(v)) for v in vals]))
         f = _eval_tree(ftree, env) if ftree is not None else None
         if f is not None and fg is None and f[0] != 'u' and (f[0] == 'x' or f[1] != g):
-            fg = (sig, f, g)
+            fg = (vals, f, g)
         if ptree is None:
             continue
         p = _eval_tree(ptree, env)
@@ -590,23 +590,26 @@ def judge(s, vars_, ptree, perr, ftree):
             res['p_undef'] += 1
             continue
         if pg is None and (p[0] == 'x' or p[1] != g):
-            pg = (sig, p, g)
+            pg = (vals, p, g)
         if f is not None and f[0] != 'u':
             pf_cmp += 1
             if pf is None and (p[0] != f[0] or p[1] != f[1]):
-                pf = (sig, p, f)
+                pf = (vals, p, f)
+
+    def show(vals):
+        return dict(zip(names, [vshow(vkey(v)) for v in vals]))
     res['mask'] = ''.join(mask)
     res['hash'] = h
     res['ndistinct'] = len(seen_vals)
     if fg is not None:
-        sig, f, g = fg
+        sig, f, g = show(fg[0]), fg[1], fg[2]
         res['fnote'] = f'frontend tree gives {vshow(f[1]) if f[0] == "v" else f[1:]} but Fortran gives {vshow(g)} at {sig}'
     if ptree is None:
         res['status'] = 'refused'
         res['detail'] = perr
         return res
     if pg is not None and (ftree is None or pf is not None or pf_cmp == 0):
-        sig, p, g = pg
+        sig, p, g = show(pg[0]), pg[1], pg[2]
         if p[0] == 'x':
             res['status'] = p[1]
             res['detail'] = (f'parse_expr({s!r}) -> {_short(ptree)} cannot be evaluated ({p[2]}) at {sig}; '
@@ -1023,11 +1026,32 @@ def _enum(arg):
     return enumerate_shard(arg)
 
 
+def _adapt_nproc(ctx):
+    """Measured on this 16-vCPU VM: the judge workers scale to about 4-8 processes (1: 9.3 s, 4: 3.0 s, 8: 2.9 s,
+    16: 4.6 s wall for the same work on an idle machine, kernel time growing from 0.1 s to 24 s) and at load 100
+    sixteen workers ran 4x slower than one.  Cap the pool at 6 and narrow it further under load, unless
+    VERIF_NPROC says otherwise."""
+    import os
+    if 'VERIF_NPROC' in os.environ:
+        return
+    ctx.nproc = min(ctx.nproc, 6)
+    try:
+        load, ncpu = os.getloadavg()[0], os.cpu_count() or 4
+    except OSError:
+        return
+    if load > ncpu:
+        ctx.nproc = max(2, min(ctx.nproc, int(ncpu * ncpu / load)))
+
+
 def run(ctx):
     import collections
     from vf.explore import seeded_order
+    import gc
+    _adapt_nproc(ctx)
     _silence()
     install_guards()
+    gc.collect()
+    gc.freeze()          # forked workers must not touch (and so copy) the parent's heap during collections
     B = bounds(ctx)
     phase = {}
     t0 = ctx.elapsed()
@@ -1094,11 +1118,11 @@ def run(ctx):
     phase['gfortran'] = round(ctx.elapsed() - t0, 1)
     # vacuity guards
     n = len(cases)
-    ctx.require(n >= (20000 if ctx.quick else 150000), f'only {n} strings enumerated')
+    ctx.require(n >= (15000 if ctx.quick else 120000), f'only {n} strings enumerated')
     ctx.require(nontrivial >= n // 2, f'only {nontrivial} of {n} strings are non-trivial')
     ctx.require(len(fp_refused) <= n // 50, f'frontend refused {len(fp_refused)} strings, e.g. {fp_refused[:5]}')
     ctx.require(by_status['refused'] <= n // 5, f'parse_expr refused {by_status["refused"]} of {n} strings')
-    ctx.require(len(got) >= (1000 if ctx.quick else 100000), f'only {len(got)} strings validated against gfortran')
+    ctx.require(len(got) >= (1000 if ctx.quick else 80000), f'only {len(got)} strings validated against gfortran')
     if fnotes:
         ctx.note(f'{len(fnotes)} strings on which the FP frontend tree and Fortran semantics disagree (not judged here), '
                  f'e.g. {fnotes[:3]}')
@@ -1118,7 +1142,7 @@ def run(ctx):
         valuations_where_parse_tree_undefined_but_text_defined=p_undef,
         parse_expr_refusals=dict(refusals), refusal_samples=refusal_samples,
         frontend_refusals=len(fp_refused), frontend_vs_fortran_disagreements=len(fnotes),
-        traces_validated_against_impl=len(got), shrink_judged_on_demand=shr.computed, phase_wall_s=phase,
+        traces_validated_against_impl=len(got), shrink_judged_on_demand=shr.computed, phase_wall_s=phase, workers=ctx.nproc,
     )
     ctx.assumptions += [
         'vf.exprsem.treeeval / texteval give Fortran values (exact ints, dyadic reals); text model validated against '
